@@ -822,6 +822,11 @@ class World:
                 else z3.IntVal(ispec.length)
             path.assume(n <= ln)
             ghost.vars[idx_name] = SInt(n)
+            if hasattr(ispec, 'consume'):
+                # at the head of the arbitrary iteration the one-shot source
+                # has been advanced by the n elements already handed out
+                # (the invariant is stated - and assumed - in THAT state)
+                ispec.consume(n)
         self.ghost_env(it, ghost, spec.get('alias'))
         for inv in spec.get('invariant', []):
             path.assume(S.as_bool_term(it.truth(
@@ -832,14 +837,13 @@ class World:
         else:
             go = it.branch(it.truth(it.eval(node.test, fr)))
         if not go:
-            if is_for and hasattr(ispec, 'consume'):
-                ispec.consume(ln)
+            # (n == ln here: the source is exhausted, pos = base + ln)
             it.exec_block(node.orelse, fr)
             return
         if is_for:
             it.assign_target(node.target, ispec.item(n), fr)
             if hasattr(ispec, 'consume'):
-                ispec.consume(n + 1)
+                ispec.consume(1)
         try:
             it.exec_block(node.body, fr)
         except BreakSig:
@@ -850,6 +854,9 @@ class World:
         if is_for:
             ghost.vars[idx_name] = SInt(n + 1)
         self.ghost_env(it, ghost, spec.get('alias'))
+        if os.environ.get('PYVC_DEBUG'):
+            print('DEBUG inv-step path feasible:', path.feasible(),
+                  'decisions', path.taken)
         for j, inv in enumerate(spec.get('invariant', [])):
             g = self.spec_eval(it, inv, ghost)
             ob = path.prove(g, '%s:inv-step:%d:%d' % (name, line, j + 1),
